@@ -350,14 +350,74 @@ def shortenings(r, text, n):
     return out
 
 
-def aux_for(r, kind):
+import struct
+import sys as _sys
+
+
+def f64_bits(x):
+    return struct.unpack(">Q", struct.pack(">d", x))[0]
+
+
+def bits_f64(b):
+    return struct.unpack(">d", struct.pack(">Q", b))[0]
+
+
+def canon_bits(b):
+    """the sign of zero is not compared"""
+    return 0 if b == 0x8000000000000000 else b
+
+
+# sorted-set scores by class: ZSCAN's view is the member set, whatever the scores
+SCORE_CLASSES = {
+    "+inf": [float("inf")], "-inf": [float("-inf")], "+0": [0.0], "-0": [-0.0],
+    "denormal": [5e-324, -5e-324, 2.2250738585072009e-308], "max-finite": [_sys.float_info.max, -_sys.float_info.max],
+    "small-int": [float(i) for i in range(-5, 6)], "fraction": [0.1, -2.5, 1e-7, 3.141592653589793],
+    "large": [9007199254740992.0, -9007199254740993.0, 1e300, -1e300, 1.5e19],
+}
+SCORE_REGIMES = ["mixed", "mixed", "mixed", "all-equal", "only-infinite", "only+inf", "zeros-and-infinities", "finite"]
+VALUE_SIZES = [0, 0, 1, 1, 2, 7, 63, 64, 255, 256, 1000, 4096, 70000]
+KEY_STATES = ["plain"] * 7 + ["ttl"] * 2 + ["expired"]
+
+
+def gen_score(r, regime, fixed):
+    """(class, bits) of one score under a set regime"""
+    if regime == "all-equal":
+        return fixed
+    if regime == "only-infinite":
+        cls = r.choice(["+inf", "-inf"])
+    elif regime == "only+inf":
+        cls = "+inf"
+    elif regime == "zeros-and-infinities":
+        cls = r.choice(["+inf", "-inf", "+0", "-0"])
+    elif regime == "finite":
+        cls = r.choice(["small-int", "fraction", "large", "denormal", "max-finite", "+0"])
+    else:
+        cls = r.choice(list(SCORE_CLASSES))
+    return cls, f64_bits(r.choice(SCORE_CLASSES[cls]))
+
+
+def gen_value(r):
+    n = r.choice(VALUE_SIZES)
+    if n == 0:
+        return b""
+    if n <= 7:
+        return r.bytes(n)
+    return bytes([r.below(256)]) * (n - 2) + b"\r\n"
+
+
+def aux_for(r, kind, ctx=None):
+    """what an element is created with: the type (+ttl / +expired) of a key, a hash value, a score (decimal of its bits)"""
+    ctx = ctx or {}
     if kind == "keys":
-        return r.choice(TYPES)
+        t = r.choice(ctx.get("pool", TYPES))
+        st = r.choice(KEY_STATES) if ctx.get("states") else "plain"
+        return t if st == "plain" else t + "+" + st
     if kind == "h":
-        return hx(r.choice([b"v", b"", b"val\xff", b"1"]))
+        return hx(gen_value(r)) if ctx.get("sizes") else hx(r.choice([b"v", b"", b"val\xff", b"1"]))
     if kind == "s":
         return "-"
-    return str(r.range(-5, 5))
+    cls, bits = gen_score(r, ctx.get("regime", "mixed"), ctx.get("fixed"))
+    return str(bits)
 
 
 def gen_desc(r, count, regime):
@@ -387,7 +447,15 @@ def gen_desc(r, count, regime):
         ty = r.choice(TYPES).encode() if r.chance(9, 10) else r.choice([b"STRING", b"foo", b"", b"str\xff", b"Hash"])
     # with a TYPE filter draw the types from two kinds so that the view is not tiny
     pool = TYPES if ty is None or ty.decode("latin1") not in TYPES else [ty.decode(), ty.decode(), r.choice(TYPES)]
-    initial = [[hx(k), (r.choice(pool) if kind == "keys" else aux_for(r, kind))] for k in names]
+    regime_z = r.choice(SCORE_REGIMES)
+    ctx = {"pool": pool, "states": r.chance(1, 3), "sizes": r.chance(1, 3), "regime": regime_z,
+           "fixed": gen_score(r, "mixed", None)}
+    if kind != "keys" and r.chance(1, 3):
+        # extreme names: the empty name and binary names among the fields / members
+        for k in [b"", b"\x00", b"\x00\x00", b"\r\n", b"\xff\xfe", b" ", b"a\x00b"]:
+            if k not in names and r.chance(1, 2) and len(names) < 60:
+                names.append(k)
+    initial = [[hx(k), aux_for(r, kind, ctx)] for k in names]
     # stable elements are never touched by the mutation batches
     stable = set(k for k in names if r.chance(1, 2))
     volatile = [k for k in names if k not in stable]
@@ -404,7 +472,7 @@ def gen_desc(r, count, regime):
                 if not cand:
                     continue
                 k = r.choice(cand)
-                batch.append(["add", hx(k), (r.choice(pool) if kind == "keys" else aux_for(r, kind))])
+                batch.append(["add", hx(k), aux_for(r, kind, ctx)])
                 present.add(k)
             elif present:
                 k = r.choice(sorted(present))
@@ -413,7 +481,8 @@ def gen_desc(r, count, regime):
         steps.append(batch)
     return {"kind": kind, "count": count, "pattern": hx(pat) if pat is not None else None,
             "type": hx(ty) if ty is not None else None, "novalues": kind == "h" and r.chance(1, 3),
-            "via_cmd": r.chance(1, 4), "initial": initial, "steps": steps}
+            "via_cmd": r.chance(1, 4), "initial": initial, "steps": steps,
+            "score_regime": regime_z if kind == "z" else None}
 
 
 def rand_case(r, s):
@@ -498,12 +567,40 @@ class C19:
 
     # -- one iteration -----------------------------------------------------------
     def apply(self, kind, op, truth):
+        rep = self.rep
         if op[0] == "add":
             name, aux = unhx(op[1]), op[2]
-            line = ("add %s %s" % (aux, op[1])) if kind == "keys" else ("eadd %s %s %s" % (kind, op[1], aux))
+            state = "plain"
+            if kind == "keys":
+                ty, _, state = aux.partition("+")
+                state = state or "plain"
+                line = {"plain": "add %s %s" % (ty, op[1]), "ttl": "addttl %s %s 3600000" % (ty, op[1]), "expired": "addexp %s %s" % (ty, op[1])}[state]
+                rep.count("scan.key." + state)
+                rep.count("scan.key-type." + ty)
+            else:
+                line = "eadd %s %s %s" % (kind, op[1], aux)
             if self.setup(line) != "ok":
                 raise InternalError("set-up failed: " + line)
-            truth[name] = aux
+            if kind == "keys":
+                if state == "expired":
+                    truth.pop(name, None)          # its TTL has run out: the key does not exist
+                else:
+                    truth[name] = ty
+            elif kind == "z":
+                b = int(aux)
+                truth[name] = str(canon_bits(b))
+                cls = next((c for c, vs in SCORE_CLASSES.items() if any(f64_bits(v) == b for v in vs)), "other")
+                rep.count("zscan.score-class." + cls)
+            else:
+                truth[name] = aux
+                if kind == "h":
+                    n = 0 if aux == "-" else len(aux) // 2
+                    rep.count("hscan.value-size." + ("0" if n == 0 else "1-7" if n <= 7 else "8-255" if n <= 255 else "256-4096" if n <= 4096 else ">4096"))
+            if kind != "keys":
+                if name == b"":
+                    rep.count("name.empty." + kind)
+                elif any(c < 0x20 or c >= 0x7F for c in name):
+                    rep.count("name.binary." + kind)
         else:
             name = unhx(op[1])
             line = ("del %s" % op[1]) if kind == "keys" else ("edel %s %s" % (kind, op[1]))
@@ -537,16 +634,28 @@ class C19:
             args = [{"h": b"hscan", "s": b"SSCAN", "z": b"ZScan"}[kind], kind.upper().encode(), str(cursor).encode()] + flat
         return "cmd " + "|".join(hx(a) for a in args)
 
-    def parse_items(self, desc, s):
-        """reply item list -> list of (name, aux) ; aux = value / score / None"""
+    def parse_items(self, desc, s, side="impl"):
+        """reply item list -> list of (name, aux) ; aux = value / score (decimal of the canonical bit pattern) / None"""
         if s == ".":
             return []
         parts = s.split("|")
         kind = desc["kind"]
         if kind == "z":
             if desc["via_cmd"]:
-                return [(unhx(parts[i]), unhx(parts[i + 1]).decode()) for i in range(0, len(parts) - 1, 2)]
-            return [(unhx(p.split("=")[0]), p.split("=")[1]) for p in parts]
+                out = []
+                for i in range(0, len(parts) - 1, 2):
+                    txt = unhx(parts[i + 1]).decode("latin1")
+                    if side == "impl":
+                        # handle_zscan prints the score with f64's Display
+                        try:
+                            sc = str(canon_bits(f64_bits(float(txt))))
+                        except ValueError:
+                            sc = "unparsable:" + txt
+                    else:
+                        sc = str(canon_bits(int(txt)))
+                    out.append((unhx(parts[i]), sc))
+                return out
+            return [(unhx(p.split("=")[0]), str(canon_bits(int(p.split("=")[1])))) for p in parts]
         if kind == "h" and not desc["novalues"]:
             return [(unhx(parts[i]), parts[i + 1]) for i in range(0, len(parts) - 1, 2)]
         return [(unhx(p), None) for p in parts]
@@ -597,7 +706,7 @@ class C19:
             if len(bw) < 2:
                 self.disagreements.append({"op": line, "impl": a, "code": b, "desc": desc})
             else:
-                mitems = self.parse_items(desc, bw[1])
+                mitems = self.parse_items(desc, bw[1], "model")
                 same = (sorted(items, key=repr) == sorted(mitems, key=repr)) if fast else (items == mitems)
                 if aw[0] != bw[0] or not same:
                     self.disagreements.append({"op": line, "impl": a, "code": b, "desc": desc})
@@ -673,7 +782,8 @@ class C19:
             fails.append(("deletion-below-cursor", "element present during the whole iteration was never returned: a lower-ranked key was deleted between two calls",
                           {"element": hx(k), **drop}))
         for k in missed_new[:1]:
-            fails.append(("complete", "element present during the whole iteration was never returned although no key ranked below the cursor disappeared",
+            fails.append(("complete", "element present during the whole iteration was never returned" +
+                          ("" if self.slot else " although no key ranked below the cursor disappeared"),
                           {"element": hx(k)}))
         # any key below the cursor deleted at all?  (the hypothesis of scan_complete_partial)
         del_below = (not self.slot) and any(any(x not in views[i + 1] for x in views[i][:cursors[i + 1]]) for i in range(len(views) - 1))
@@ -683,6 +793,10 @@ class C19:
                 rep.count("iter.deletion-before-slot-cursor")
         outcome = "missed" if missed_known or missed_new else ("dup" if dup else "exact")
         rep.count("iter." + kind)
+        if kind == "z":
+            rep.count("zscan.set-regime." + (desc.get("score_regime") or "corpus"))
+            rep.nontrivial(("zscan-scores", desc.get("score_regime"), min(cnt, 3), desc["via_cmd"], pat is not None, outcome,
+                            any(bits_f64(int(v)) in (float("inf"), float("-inf")) for v in snaps[0].values()) if snaps[0] else False))
         rep.count("iter.outcome." + outcome)
         rep.count("iter.calls", calls)
         if del_below:
@@ -704,9 +818,26 @@ class C19:
         r2 = self.execute(dict(base, initial=[[b, "string"], [c, "string"]], steps=[[["add", a, "string"]]]), "corpus")
         self.rep.sample({"witness_deletion": r1["lines"], "returned": [[hx(x) for x in bt] for bt in r1["returned"]]})
         self.rep.sample({"witness_addition_duplicates": r2["lines"], "returned": [[hx(x) for x in bt] for bt in r2["returned"]]})
-        for kind, aux in (("h", hx(b"v")), ("s", "-"), ("z", "1")):
+        for kind, aux in (("h", hx(b"v")), ("s", "-"), ("z", str(f64_bits(1.0)))):
             self.execute({"kind": kind, "count": 1, "pattern": None, "type": None, "novalues": False, "via_cmd": False,
                           "initial": [[a, aux], [b, aux], [c, aux]], "steps": [[["del", a]]]}, "corpus")
+        # sorted sets whose scores are infinite, zero, denormal, huge: the members are what ZSCAN walks
+        inf, ninf = str(f64_bits(float("inf"))), str(f64_bits(float("-inf")))
+        zsets = [[[a, inf], [b, ninf], [c, str(f64_bits(0.0))]], [[a, inf], [b, inf], [c, ninf]], [[a, ninf]],
+                 [[a, str(f64_bits(-0.0))], [b, str(f64_bits(5e-324))], [c, str(f64_bits(1.7976931348623157e308))], [hx(b"d"), inf]]]
+        for zs in zsets:
+            for cnt in (1, 10):
+                for via in (False, True):
+                    self.execute({"kind": "z", "count": cnt, "pattern": None, "type": None, "novalues": False, "via_cmd": via,
+                                  "initial": zs, "steps": [], "score_regime": "corpus"}, "corpus")
+        # the empty name and binary names; a large value
+        for kind, aux in (("h", hx(b"x" * 5000)), ("s", "-"), ("z", inf)):
+            self.execute({"kind": kind, "count": 1, "pattern": None, "type": None, "novalues": False, "via_cmd": False,
+                          "initial": [["-", aux], ["00", aux], ["0d0a", aux], [a, aux]], "steps": [[["del", "00"]]]}, "corpus")
+        # keys with a TTL are live keys, keys whose TTL has run out are not there (every type, with and without TYPE)
+        for tyf in (None, hx(b"zset")):
+            self.execute(dict(base, count=2, type=tyf, initial=[[a, "zset+ttl"], [b, "zset+expired"], [c, "zset"], [hx(b"d"), "string+ttl"],
+                                                               [hx(b"e"), "hash+expired"]], steps=[[["add", hx(b"f"), "zset+ttl"]]]), "corpus")
         # MATCH on lossily decoded text: the literal pattern ff selects the key fe
         self.execute(dict(base, count=10, pattern="ff", initial=[["fe", "string"], ["ff", "string"]], steps=[]), "corpus")
         for p, t in [(b"\xff", b"\xfe"), (b"?", "é".encode()), (b"[", b"["), (b"[abc", b"a"), (b"[\\]]", b"]"), (b"[z-a]", b"b"), (b"[a-]", b"-"),
